@@ -233,7 +233,35 @@ def rule_progress(report, prog):
     # Type 3: block loop bounded by Ln, stride Nbr must be positive
     t3 = prog.func('nfc.tag.tt3.Type3Tag.NDEF._read_ndef_data')
     cfg = cfg_of(t3)
-    lp = [l for l in walk_no_nested(t3.node) if isinstance(l, ast.For) and "attributes['nbr']" in norm(l.iter)]
+    def _block_step(fn, attr):
+        """(loop, bound): the batching loop whose stride is attributes[attr] or a local bound once to it / min(it, K); bound = K."""
+        for l in walk_no_nested(fn.node):
+            if not (isinstance(l, ast.For) and isinstance(l.iter, ast.Call) and norm(l.iter.func) == 'range' and len(l.iter.args) == 3):
+                continue
+            st_ = l.iter.args[2]
+            if norm(st_) == "attributes['%s']" % attr:
+                return l, None
+            if isinstance(st_, ast.Name):
+                binds = [a for a in walk_no_nested(fn.node) if isinstance(a, ast.Assign) and any(norm(t) == st_.id for t in a.targets)]
+                if len(binds) == 1 and "attributes['%s']" % attr in norm(binds[0].value):
+                    v = binds[0].value
+                    if isinstance(v, ast.Call) and norm(v.func) == 'min' and any(norm(a) == "attributes['%s']" % attr for a in v.args):
+                        ks = [try_const(a) for a in v.args if isinstance(try_const(a), int)]
+                        return l, (min(ks) if ks else None)
+                    if norm(v) == "attributes['%s']" % attr:
+                        return l, None
+        return None, None
+    # one command moves at most 15 (read) / 13 (write) blocks -- the length octet of a frame is one byte; the count the tag
+    # announces in its attribute block is cut to that before it sizes a command (else bytearray() raises ValueError)
+    for fname, attr, limit in (('_read_ndef_data', 'nbr', 15), ('_write_ndef_data', 'nbw', 13)):
+        fn = prog.func('nfc.tag.tt3.Type3Tag.NDEF.' + fname)
+        l_, bound = _block_step(fn, attr)
+        n += 1
+        report.check(l_ is not None and bound is not None and 1 <= bound <= limit, 'C08-R3',
+                     key(fn.qname, 'blocks per command cut to what one frame can carry'), fn.loc(l_) if l_ is not None else fn.loc(),
+                     'the number of blocks per command comes from the attribute block (%s) without an upper bound: %d and more blocks make the '
+                     'command length octet overflow (ValueError out of tag.ndef)' % (attr, 121))
+    lp = [l for l in [_block_step(t3, 'nbr')[0]] if l is not None]
     n += 1
     if lp:
         node = [x for x in cfg.nodes if x.kind == 'stmt' and x.ast is lp[0].iter]
